@@ -1,7 +1,7 @@
 (* The case interpreter: runs the model on one generated case and renders the observation
    lines that the Rust harness prints for the implementation on the same case.  Executable
    definitions only; nothing here is used by a theorem except where a props file says so. *)
-From MH Require Export model.ConnSpec model.OneShot model.ConnImpl model.Router.
+From MH Require Export model.ConnSpec model.OneShot model.ConnImpl model.Router model.Server.
 
 Inductive arg := AN (n : N) | AB (b : bytes) | AL (l : list arg).
 
@@ -337,6 +337,157 @@ Definition run_router (id : N) (server prefix : bytes) (routes reqs : list arg) 
   let '(rt, ls) := run_routes id 0 (routes_new N server prefix) routes in
   ls ++ run_reqs id 0 rt reqs.
 
+(* ---------- domain 9: the server on its kernel model ---------- *)
+Fixpoint ins_by_key (p : bytes * (nat * request)) (l : list (bytes * (nat * request))) :=
+  match l with
+  | [] => [p]
+  | q :: r => if bleb (fst p) (fst q) then p :: l else q :: ins_by_key p r
+  end.
+Definition sort_yields (ys : list (nat * request)) : list (bytes * (nat * request)) :=
+  fold_right ins_by_key [] (map (fun y => (s_req (snd y), y)) ys).
+
+Definition s_serr (e : serr) : bytes :=
+  match e with
+  | EShutdown => B"Shutdown" | EInvalidWrite => B"InvalidWrite" | EOverflow => B"Overflow"
+  | EUnderflow => B"Underflow" | EPanic => B"PANIC"
+  end.
+
+Fixpoint remove_nth {A} (n : nat) (l : list A) : list A :=
+  match n, l with
+  | _, [] => []
+  | O, _ :: r => r
+  | S k, x :: r => x :: remove_nth k r
+  end.
+
+Definition s_sstate (s : sstate) : bytes := match s with AwaitIn => B"0" | AwaitOut => B"1" | SClosed => B"2" end.
+Fixpoint ins_bytes (p : bytes) (l : list bytes) : list bytes :=
+  match l with [] => [p] | q :: r => if bleb p q then p :: l else q :: ins_bytes p r end.
+
+Section RunSrv.
+Variable BUF : nat.
+
+Definition srv_poll (pre : bytes) (w : world) : world * bytes :=
+  match poll BUF w with
+  | PBlocked => (w, pre ++ B"poll blocked")
+  | PErr e => (w, pre ++ B"poll Err(" ++ s_serr e ++ B")")
+  | PYield w' ys =>
+      let sorted := sort_yields ys in
+      let w'' := mkW (w_clients w') (w_conns w') (w_backlog w')
+                     (w_tokens w' ++ map (fun p => snd p) sorted)
+                     (w_nextg w') (w_limit w') (w_killed w') in
+      (w'', pre ++ B"poll Ok " ++ decn (length ys) ++ flat_map (fun p => B" | " ++ fst p) sorted)
+  end.
+
+Fixpoint srv_poll_many (fuel : nat) (pre : bytes) (w : world) : world * list bytes :=
+  match fuel with
+  | O => (w, [])
+  | S f =>
+    let '(w', line) := srv_poll pre w in
+    match poll BUF w with
+    | PYield _ _ => let '(w'', ls) := srv_poll_many f pre w' in (w'', line :: ls)
+    | _ => (w', [line])
+    end
+  end.
+
+Definition run_srv_op (id : N) (i : nat) (has_kill : bool) (w : world) (op : arg) : world * list bytes :=
+  let pre := B"srv " ++ dec id ++ B" " ++ decn i ++ B" " in
+  match op with
+  | AL [AN 0; AN c] =>
+      let c := N.to_nat c in
+      (mkW (w_clients w ++ [(c, mkCl true false false [] [] InBacklog)]) (w_conns w) (w_backlog w ++ [c])
+           (w_tokens w) (w_nextg w) (w_limit w) (w_killed w), [pre ++ B"conn " ++ decn c])
+  | AL [AN 1; AN c; AB bs] =>
+      let c := N.to_nat c in
+      let cl := client_of w c in
+      let ok := k_open cl && negb (k_shut_wr cl) && match k_place cl with Gone => false | _ => true end in
+      if ok then
+        (set_client w c (mkCl (k_open cl) (k_shut_wr cl) (k_shut_rd cl) (k_tosrv cl ++ bs) (k_rx cl) (k_place cl)),
+         [pre ++ B"send " ++ decn c ++ B" " ++ decn (length bs)])
+      else (w, [pre ++ B"send " ++ decn c ++ B" 0"])
+  | AL [AN 2; AN c] =>
+      let c := N.to_nat c in
+      let cl := client_of w c in
+      (set_client w c (mkCl false (k_shut_wr cl) (k_shut_rd cl) (k_tosrv cl) [] (k_place cl)), [pre ++ B"close " ++ decn c])
+  | AL [AN 3; AN c] =>
+      let c := N.to_nat c in
+      let cl := client_of w c in
+      (set_client w c (mkCl (k_open cl) true (k_shut_rd cl) (k_tosrv cl) (k_rx cl) (k_place cl)), [pre ++ B"shutwr " ++ decn c])
+  | AL [AN 4; AN c] =>
+      let c := N.to_nat c in
+      let cl := client_of w c in
+      (set_client w c (mkCl (k_open cl) (k_shut_wr cl) true (k_tosrv cl) (k_rx cl) (k_place cl)), [pre ++ B"shutrd " ++ decn c])
+  | AL [AN 5; AN c] =>
+      let c := N.to_nat c in
+      let cl := client_of w c in
+      (set_client w c (mkCl (k_open cl) (k_shut_wr cl) (k_shut_rd cl) (k_tosrv cl) [] (k_place cl)),
+       [pre ++ B"drain " ++ decn c ++ B" " ++ hex (k_rx cl) ++ B" "
+        ++ match k_place cl with Gone => B"eof" | _ => B"open" end])
+  | AL [AN 6] => let '(w', line) := srv_poll pre w in (w', [line])
+  | AL [AN 7; AN k; r] =>
+      match w_tokens w with
+      | [] => (w, [pre ++ B"resp none"])
+      | _ =>
+        let idx := N.to_nat (k mod N.of_nat (length (w_tokens w))) in
+        match nth_error (w_tokens w) idx with
+        | None => (w, [pre ++ B"resp none"])
+        | Some (g, _) =>
+          let w1 := mkW (w_clients w) (w_conns w) (w_backlog w) (remove_nth idx (w_tokens w))
+                        (w_nextg w) (w_limit w) (w_killed w) in
+          match respond w1 g (response_of r) with
+          | inl w2 => (w2, [pre ++ B"resp Ok"])
+          | inr e => (w1, [pre ++ B"resp Err(" ++ s_serr e ++ B")"])
+          end
+        end
+      end
+  | AL [AN 12; AN k] =>
+      match w_tokens w with
+      | [] => (w, [pre ++ B"resp none"])
+      | _ =>
+        let idx := N.to_nat (k mod N.of_nat (length (w_tokens w))) in
+        match nth_error (w_tokens w) idx with
+        | None => (w, [pre ++ B"resp none"])
+        | Some (g, rq) =>
+          let w1 := mkW (w_clients w) (w_conns w) (w_backlog w) (remove_nth idx (w_tokens w))
+                        (w_nextg w) (w_limit w) (w_killed w) in
+          let r := apply_op (response_new Http11 OK) (SetBody (B"echo:" ++ rl_uri (r_line rq))) in
+          match respond w1 g r with
+          | inl w2 => (w2, [pre ++ B"resp Ok"])
+          | inr e => (w1, [pre ++ B"resp Err(" ++ s_serr e ++ B")"])
+          end
+        end
+      end
+  | AL [AN 8] => (flush w, [pre ++ B"flush"])
+  | AL [AN 9] =>
+      if has_kill then
+        (mkW (w_clients w) (w_conns w) (w_backlog w) (w_tokens w) (w_nextg w) (w_limit w) true, [pre ++ B"kill"])
+      else (w, [pre ++ B"kill"])
+  | AL [AN 10; AN n] =>
+      (mkW (w_clients w) (w_conns w) (w_backlog w) (w_tokens w) (w_nextg w) n (w_killed w), [pre ++ B"limit"])
+  | AL [AN 11; AN k] => srv_poll_many (N.to_nat k) pre w
+  | _ => (w, [pre ++ B"?"])
+  end.
+
+Fixpoint run_srv_ops (id : N) (i : nat) (has_kill : bool) (w : world) (ops : list arg) : world * list bytes :=
+  match ops with
+  | [] => (w, [])
+  | op :: r =>
+      let '(w', ls) := run_srv_op id i has_kill w op in
+      let '(w'', ls') := run_srv_ops id (S i) has_kill w' r in
+      (w'', ls ++ ls')
+  end.
+
+Definition run_srv (id flags : N) (ops : list arg) : list bytes :=
+  let '(w, ls) := run_srv_ops id 0 (N.odd flags) world0 ops in
+  ls ++ [B"srv " ++ dec id ++ B" end " ++
+         if w_killed w then B"killed"
+         else B"nconn=" ++ decn (length (w_conns w)) ++ B" conns=["
+              ++ join (B",") (fold_right ins_bytes []
+                   (map (fun p => s_sstate (sc_st (snd p)) ++ B":" ++ dec (sc_infl (snd p)) ++ B":"
+                                  ++ bit (pending_write (sc_conn (snd p)))) (w_conns w)))
+              ++ B"]"].
+
+End RunSrv.
+
 (* ---------- dispatch ---------- *)
 Definition run_case (BUF : nat) (a : arg) : list bytes :=
   match a with
@@ -349,6 +500,7 @@ Definition run_case (BUF : nat) (a : arg) : list bytes :=
   | AL [AN 7; AN id; AN v; AN s; AL ops] => [run_resp id v s ops]
   | AL [AN 7; AN id; AN v; AN s; AL ops; AL _] => [run_resp id v s ops]
   | AL [AN 8; AN id; AB server; AB prefix; AL routes; AL reqs] => run_router id server prefix routes reqs
+  | AL [AN 9; AN id; AN flags; AL ops] => run_srv BUF id flags ops
   | _ => [B"? unknown case"]
   end.
 
